@@ -33,10 +33,18 @@ theorem enq_uids_increasing :
     (enqUids (run (init clients cbs emit) sched).hist).Pairwise (· < ·) :=
   ProofsObs.enq_uids_increasing clients cbs emit sched
 
-/-- ... and each handler receives entries in that order, none twice -/
-theorem order_at_most_once (h : Hid) :
-    (callUids h (run (init clients cbs emit) sched).hist).Pairwise (· < ·) :=
-  ProofsObs.order_at_most_once clients cbs emit sched h
+/-- ... and each handler receives entries in that order, none twice.
+    FULL STATEMENT (false of the MODEL, not of the code: `ProofsObs.order_at_most_once_false` exhibits a
+    client that calls `start()` twice — the model then spawns two dispatcher threads, whereas a Python
+    thread cannot be started twice; and a script of ~2000 calls exhausts the model's step fuel):
+      `∀ h, (callUids h (run (init clients cbs emit) sched).hist).Pairwise (· < ·)`
+    PROVED PART: for every run in which every step completes within the model's fuel (`runOk`, an
+    executable predicate that the driver evaluates on every replayed run) and `start` spawned at most
+    one dispatcher. -/
+theorem order_at_most_once_partial (hok : ProofsObs.runOk (init clients cbs emit) sched = true)
+    (hone : ((run (init clients cbs emit) sched).threads.filter (fun t => t.kind == .dispatcher)).length ≤ 1)
+    (h : Hid) : (callUids h (run (init clients cbs emit) sched).hist).Pairwise (· < ·) :=
+  ProofsObs.order_at_most_once_partial clients cbs emit sched hok hone h
 
 /-- the dispatch of an entry starts from exactly the handlers registered for its watch at that moment -/
 theorem dispatch_copy (p q : List Obs) (u : Nat) (w : Wid) (hs : List Hid)
@@ -45,11 +53,14 @@ theorem dispatch_copy (p q : List Obs) (u : Nat) (w : Wid) (hs : List Hid)
   ProofsObs.dispatch_copy clients cbs emit sched p q u w hs hh h
 
 /-- completeness: once the dispatch of an entry has finished, every handler of the copy was either
-    called with it or had been found unregistered at its turn -/
-theorem complete (p q r : List Obs) (u : Nat) (w : Wid) (hs : List Hid)
+    called with it or had been found unregistered at its turn.
+    FULL STATEMENT: without the hypothesis `runOk` (it fails only through fuel exhaustion of the model:
+    scripts of thousands of calls; witness in WD/Proofs/Observer/Counterexamples.lean). -/
+theorem complete_partial (hok : ProofsObs.runOk (init clients cbs emit) sched = true)
+    (p q r : List Obs) (u : Nat) (w : Wid) (hs : List Hid)
     (hh : (run (init clients cbs emit) sched).hist = p ++ .dispatch u w hs :: q ++ .dispatchEnd u :: r)
     (h : Hid) (hm : h ∈ hs) : (∃ v, Obs.call h w v u ∈ q) ∨ Obs.skip h u ∈ q :=
-  ProofsObs.complete clients cbs emit sched p q r u w hs hh h hm
+  ProofsObs.complete_partial clients cbs emit sched hok p q r u w hs hh h hm
 
 /-- a handler is skipped only if it is no longer registered at its turn -/
 theorem skip_unregistered (p q : List Obs) (h : Hid) (u : Nat)
@@ -59,18 +70,22 @@ theorem skip_unregistered (p q : List Obs) (h : Hid) (u : Nat)
 
 /-- C05: when a removing call (unschedule / remove_handler_for_watch / unschedule_all / stop) has
     returned, the handlers it removed are unregistered at that moment — from an application thread
-    or re-entrantly from a callback alike -/
-theorem unregistered_on_return (p q : List Obs) (op : Op) (h : Hid) (w : Wid)
+    or re-entrantly from a callback alike.
+    FULL STATEMENT: without `runOk` (fails only through fuel exhaustion of the model; witness in
+    WD/Proofs/Observer/Counterexamples.lean). -/
+theorem unregistered_on_return_partial (hok : ProofsObs.runOk (init clients cbs emit) sched = true)
+    (p q : List Obs) (op : Op) (h : Hid) (w : Wid)
     (hh : (run (init clients cbs emit) sched).hist = p ++ .did op "ok" :: q) (hr : removes op h w = true) :
     registered p h w = false :=
-  ProofsObs.unregistered_on_return clients cbs emit sched p q op h w hh hr
+  ProofsObs.unregistered_on_return_partial clients cbs emit sched hok p q op h w hh hr
 
 /-- C05: hence no callback of a removed handler for that watch after the return, unless it was
-    registered again in between -/
-theorem nothing_after_return (p q r : List Obs) (op : Op) (h : Hid) (w : Wid) (v u : Nat)
+    registered again in between (same restriction) -/
+theorem nothing_after_return_partial (hok : ProofsObs.runOk (init clients cbs emit) sched = true)
+    (p q r : List Obs) (op : Op) (h : Hid) (w : Wid) (v u : Nat)
     (hh : (run (init clients cbs emit) sched).hist = p ++ .did op "ok" :: q ++ .call h w v u :: r)
     (hr : removes op h w = true) : Obs.reg h w ∈ q :=
-  ProofsObs.nothing_after_return clients cbs emit sched p q r op h w v u hh hr
+  ProofsObs.nothing_after_return_partial clients cbs emit sched hok p q r op h w v u hh hr
 
 /-- C05: unschedule() returns only after the emitter's thread has ended (it waits in join()) -/
 theorem unschedule_joins_emitter (s : State) (ti : Nat) (t : Thread) (w : Wid) (e : Eid) (o : EmObj) (ei : Nat)
@@ -85,5 +100,11 @@ example :
       [0, 0, 0, 0, 0, 1, 1, 1, 2, 2, 1, 2]
     (s.hist.filter (fun o => match o with | .call .. => true | .skip .. => true | _ => false)) =
       [.call 0 0 1 1, .skip 1 1] := by decide +kernel
+
+/-- non-vacuity of the `runOk` hypothesis: it holds on the example run above (and the driver evaluates it
+    on every run replayed against the real observer; see evidence key runs_with_runOk) -/
+example :
+    ProofsObs.runOk (init [[.schedule 0 0 0, .schedule 1 0 0, .start]] [(0, [[.unschedule 0]])] [(0, [1, 2])])
+      [0, 0, 0, 0, 0, 1, 1, 1, 2, 2, 1, 2] = true := by decide +kernel
 
 end WD.C04
